@@ -11,7 +11,7 @@ from units import wire_decode as WD
 TRUSTED = TRUSTED_COMMON + [
     "bytes::BytesMut modelled as Seq<u8>; put_u8/put_slice shims (R13); DerefMut index assignment (prelude/bytesmut.rs)",
     "HashMap<DomainName, u16>: vstd HashMap specs + obeys_key_model::<DomainName>() (derived Hash/Eq agree)",
-    "Ipv4Addr::octets / Ipv6Addr::octets return arrays of 4 / 16 bytes (content unconstrained)",
+    "Ipv4Addr::octets / Ipv6Addr::octets return the 4 / 16 octets that Ipv4Addr::from(u32) / Ipv6Addr::new(8 x u16) read big-endian (axiom_v4_octets / axiom_v6_octets: std facts, trusted)",
 ]
 
 EXT = "bytes_extend(*old(buffer), *final(buffer)),"
